@@ -31,6 +31,36 @@ def formula(check, key):
     lam = ctx.spectral_radius(W)
     _decide(check, "DT-FORMULA", construct, f.loc(), A, dt, cfl * dx / lam,
             "timestep(prim2cons(W), dx, cfl) == cfl*dx/spectral radius", key="formula")
+    # DT-REST: where the wave speed VANISHES (a Burgers cell at rest, u = 0) the formula is cfl*dx/0 = +inf: no limit, and the
+    # minimum over the cells skips it.  An entry left at its allocation value there (0 from np.zeros with `where=`, nan) makes
+    # the global minimum 0 (time never advances) or nan (depending on WHERE the cell is: the builtin min keeps its first nan)
+    if key == "burgers":
+        import decimal
+        hooks = dict(A.point_hooks)
+        names = [A.atoms[a].name for a in A.atoms_of(W[0])]
+        for nm in names:
+            A.point_hooks[nm] = lambda k: 0.0
+        vals = []
+        try:
+            for k in range(5000, 5012):
+                A._memo.pop(k, None)
+                if not A.admissible(k):
+                    continue
+                v = A.evalf(dt, k)
+                vals.append(v)
+                A._memo.pop(k, None)
+        finally:
+            A.point_hooks.clear()
+            A.point_hooks.update(hooks)
+        finite = [v for v in vals if v is not None and not v.is_nan() and not v.is_infinite()]
+        if not vals:
+            check.undecided("DT-REST", construct, "time step of a cell at rest not evaluable", f.loc())
+        elif finite:
+            check.violation("DT-REST", construct, "a cell AT REST (u = 0, no wave) gets the time step %s, not cfl*dx/0 = +inf (no limit): the entry is left at the value the array was allocated with (a conditional store, `where=` of a ufunc) -- the minimum over the cells is then %s whenever one cell is at rest" % (finite[0], "0: time never advances" if finite[0] == 0 else "that number"), f.loc(), key="rest-finite")
+        elif any(v is not None and v.is_nan() for v in vals):
+            check.violation("DT-REST", construct, "a cell at rest (u = 0) gets the time step nan, not +inf: min() over the cells is nan or not depending on WHERE the cell is (the builtin min returns its first argument when a comparison with nan is False)", f.loc(), key="rest-nan")
+        else:
+            check.ok("DT-REST", construct, "a cell at rest gets cfl*dx/0 (+inf, no limit): the formula is stored unconditionally", f.loc())
     s = A.sign(dt)
     if s in ("+", ">=0"):
         check.ok("DT-POS", construct, "time step > 0 for cfl, dx > 0 and admissible states%s" % ("" if s == "+" else " (non-zero wave speed)"), f.loc())
@@ -44,6 +74,55 @@ def formula(check, key):
             vm = ctx.call(reg["velocitymag"], q)
             _decide(check, "DT-SIBLING", construct, f.loc(), A, dt * (vm + a), cfl * dx,
                     "wave speed in timestep == velocitymag + asound (the model's own variables)", key="sibling")
+
+
+def rest_alloc(check):
+    """DT-REST (structure): a time-step kernel that stores its formula only in SOME cells (a store under an `if` on the data, a
+    ufunc with `where=`) leaves the other cells at the value the result array was allocated with.  The formula's value there is
+    cfl*dx/0 = +inf ("no limit"; the algebra reasons for generic states and does not see u = 0), so the allocation must be +inf:
+    zeros make the global minimum 0 (time never advances), nan makes it nan depending on where the cell is."""
+    import ast
+    proj = check.proj
+    seen = set()
+    n = 0
+    for key in KEYS:
+        cls = proj.cls(MODELS[key]["cls"])
+        f = proj.resolve(cls, "timestep")
+        if f is None or f.qualname in seen:
+            continue
+        seen.add(f.qualname)
+        n += 1
+        rets = [r.value.id for r in ast.walk(f.node) if isinstance(r, ast.Return) and isinstance(r.value, ast.Name)]
+        partial = []
+        for name in set(rets):
+            def under_if(stmts, inside):
+                for st in stmts:
+                    if isinstance(st, ast.If):
+                        under_if(st.body, True)
+                        under_if(st.orelse, True)
+                    elif isinstance(st, (ast.For, ast.While, ast.With)):
+                        under_if(st.body, inside)
+                    elif inside and isinstance(st, (ast.Assign, ast.AugAssign)):
+                        for t in (st.targets if isinstance(st, ast.Assign) else [st.target]):
+                            if isinstance(t, ast.Subscript) and isinstance(t.value, ast.Name) and t.value.id == name:
+                                partial.append((name, st.lineno, "a store under an `if`"))
+            under_if(f.node.body, False)
+            for c in ast.walk(f.node):
+                if isinstance(c, ast.Call) and any(k.arg == "where" for k in c.keywords) and any(k.arg == "out" and isinstance(k.value, ast.Name) and k.value.id == name for k in c.keywords):
+                    partial.append((name, c.lineno, "a ufunc with `where=`"))
+        if not partial:
+            check.ok("DT-REST", f.qualname, "the formula is stored in every cell (no conditional store, no `where=`)", f.loc(), nontrivial=False)
+            continue
+        name, ln, how = partial[0]
+        allocs = [st for st in ast.walk(f.node) if isinstance(st, ast.Assign) and any(isinstance(t, ast.Name) and t.id == name for t in st.targets)]
+        is_inf = lambda e: (isinstance(e, ast.Attribute) and e.attr in ("inf", "Inf", "infty", "PINF")) or (isinstance(e, ast.Call) and isinstance(e.func, ast.Name) and e.func.id == "float" and e.args and isinstance(e.args[0], ast.Constant) and str(e.args[0].value).lower() in ("inf", "+inf", "infinity"))
+        good = bool(allocs) and all(isinstance(a.value, ast.Call) and isinstance(a.value.func, ast.Attribute) and a.value.func.attr in ("full", "full_like") and len(a.value.args) >= 2 and is_inf(a.value.args[1]) for a in allocs)
+        if good:
+            check.ok("DT-REST", f.qualname, "cells the formula is not stored in keep +inf (the array is allocated with it): no limit", f.loc())
+        else:
+            check.violation("DT-REST", f.qualname, "the time step is stored in SOME cells only (%s, line %d) and `%s` is allocated by `%s`: a cell with zero wave speed (a Burgers cell at rest) keeps that value instead of cfl*dx/0 = +inf -- with zeros the minimum over the cells is 0 and time never advances, with nan it is nan or not depending on where the cell is" % (how, ln, name, unparse(allocs[0].value)[:40] if allocs else "?"),
+                            "%s:%d" % (f.module.relpath, ln), key="rest-alloc")
+    check.floor("time-step kernels", n, 4)
 
 
 def cellsize(check):
@@ -166,6 +245,7 @@ def body(check):
     check.assume("admissible states; cfl > 0; cell sizes > 0")
     for key in KEYS:
         check.guarded("DT-FORMULA", key, lambda: formula(check, key))
+    check.guarded("DT-REST", "timestep kernels", lambda: rest_alloc(check))
     check.guarded("DT-CELLSIZE", "modeldisc", lambda: cellsize(check))
     check.guarded("DT-LOCAL", "integration", lambda: local_update(check))
     check.guarded("DT-LOCAL", "integration (implicit)", lambda: local_implicit(check))
